@@ -88,8 +88,15 @@ def make_block(corek, target, L, order, user, tree, icpos, lagof, horizon, secon
     return Block(alleqs, lags=lags, ics=ics, exos=[('g', '[1., 2., 4., 8., 16., 32.]')], maxtime=horizon, tol='1e-10')
 
 
-def solve(block, red, steady=False, twice=False):
-    s = EquationSolver(block.text(), run_equation_reduction=red)
+def ic_first(text):
+    """The same block with every initial-condition line moved in front of the equations."""
+    lines = text.split('\n')
+    head = [l for l in lines if '(0)' in l.split('=')[0] and '=' in l]
+    return '\n'.join(head + [l for l in lines if l not in head])
+
+
+def solve(block, red, steady=False, twice=False, icfirst=False):
+    s = EquationSolver(ic_first(block.text()) if icfirst else block.text(), run_equation_reduction=red)
     s.MaxIterations = 2000
     if red and twice:
         s.Parser.EquationReduction()      # the (public, idempotent) reduction called once more on the reduced parser
@@ -101,14 +108,14 @@ def solve(block, red, steady=False, twice=False):
     return s
 
 
-def compare(block, exact_required, case, steady=False, twice=False):
+def compare(block, exact_required, case, steady=False, twice=False, icfirst=False):
     try:
-        a = solve(block, True, steady, twice)
+        a = solve(block, True, steady, twice, icfirst)
     except Exception as e:
         ea = e
         a = None
     try:
-        b = solve(block, False, steady)
+        b = solve(block, False, steady, icfirst=icfirst)
     except Exception as e:
         eb = e
         b = None
@@ -289,6 +296,18 @@ def run_unit(unit, tier):
             res['violations'].append(v)
         if not res['samples']:
             res['samples'].append({'block': blk.text()})
+        if icpos != 'none':
+            # the same block written with the initial-condition lines in front of the equations
+            case4 = {'features': dict(feats, icfirst=True), 'text': ic_first(blk.text())}
+            dig.add((blk.key(), 'icfirst'))
+            outcome, v, moved = compare(blk, unit['core'] == 'acyclic', case4, icfirst=True)
+            res['evaluations'] += 1
+            if moved:
+                res['nontrivial'] += 1
+            core.bump(res['outcomes'], unit['core'] + ':ic-first:' + outcome)
+            if v:
+                v['key'] = v['key'] + ':ic-line-first'
+                res['violations'].append(v)
         if icpos == 'none' and lagof in ('none', 'aL'):
             case3 = {'features': dict(feats, twice=True), 'text': blk.text()}
             dig.add((blk.key(), 'twice'))
@@ -328,5 +347,6 @@ def replay(case):
         return [v] if v else []
     f = case['features']
     blk = make_block(f['core'], f['target'], f['L'], f['order'], f['user'], f['tree'], f['icpos'], f['lagof'], f['horizon'], f.get('second', False))
-    o, v, m = compare(blk, f['core'] == 'acyclic' and not f.get('steady'), case, steady=bool(f.get('steady')), twice=bool(f.get('twice')))
+    o, v, m = compare(blk, f['core'] == 'acyclic' and not f.get('steady'), case, steady=bool(f.get('steady')), twice=bool(f.get('twice')),
+                      icfirst=bool(f.get('icfirst')))
     return [v] if v else []
